@@ -163,6 +163,19 @@ def rule_signals_forced(ctx, facts, rule, kinds=("CommitCollect", "DropCollect")
             other[v].append((fn.path, callees))
     for k in kinds:
         ctx.floor(rule, CMD_ADT, found[k], 1, "constructions of CollectCommand::%s" % k)
+    # ... and unconditionally: the entry points of the collector interface send their signal on every path (a commit elided because
+    # "the cancel already removed the entry" leaves the entry behind whenever the cancel was a no-op: not cancelable, another thread ..)
+    for meth, k in (("commit_collect", "CommitCollect"), ("drop_collect", "DropCollect")):
+        if k not in kinds:
+            continue
+        g = facts.fn("fastrace::collector::global_collector::GlobalCollect::" + meth)
+        if g is None:
+            ctx.fail(rule, "fastrace::collector::global_collector::GlobalCollect::" + meth, "-", "anchor exists", "anchor lost", extra="always-" + k)
+            continue
+        sites = sites_star(facts, g, is_call(r"global_collector::force_send_command$"))
+        ok, wit = g.must_pass([0], sites) if sites else (False, None)
+        ctx.check(ok, rule, g.path, g.span, "GlobalCollect::%s sends its %s on every path" % (meth, k), "",
+                  "a path returns (bb%s) without force_send_command: the signal is elided" % wit, extra="always-" + k)
     fs = ctx.need_fn(facts, "fastrace::collector::global_collector::force_send_command", rule)
     if fs is not None:
         sites = sites_star(facts, fs, is_call(r"spsc::Sender::<T>::force_send$"))
